@@ -22,7 +22,7 @@ pub struct Case {
 pub fn cases() -> Vec<Case> {
     let mut v = vec![];
     for amountless in [false, true] {
-        for signer in [Signer::Payee, Signer::ExplicitPayee, Signer::ExplicitPayeeWrongKey, Signer::RecoveredOther] {
+        for signer in [Signer::Payee, Signer::ExplicitPayee, Signer::ExplicitPayeeWrongKey, Signer::RecoveredOther, Signer::ExplicitPayeeOtherRecid] {
             for hints in [Hints::None, Hints::Other, Hints::SelfLast, Hints::SelfNotLast, Hints::OtherThenSelfLast] {
                 for hash_equal in [true, false] {
                     for amt in 0..8u8 {
